@@ -249,6 +249,27 @@ var pertLevels = []struct {
 	{"B<9216", 4610, 9200}, {"B<18432", 9210, 18400}, {"B>18432", 18500, 20000},
 }
 
+// libCostWords estimates the number of machine words one library call has to
+// clear for 1-f = y when the result is within ~2^-B of an integer (see the cost
+// guard in genConstructed).
+func libCostWords(y *big.Rat, B uint) float64 {
+	num, den := y.Num(), y.Denom()
+	sh := den.BitLen() - num.BitLen()
+	n2 := new(big.Int).Lsh(num, uint(sh))
+	if n2.Cmp(den) >= 0 {
+		n2.Rsh(n2, 1)
+	}
+	zn := new(big.Int).Sub(den, n2)
+	zd := new(big.Int).Add(den, n2)
+	q := float64(zd.BitLen() - zn.BitLen())
+	tb := 576.0
+	for tb < float64(B)+64 && tb < 18432 {
+		tb *= 2
+	}
+	terms := tb/3.17 + 16
+	return terms * terms * q / 64
+}
+
 func genConstructed(rt *rapid.T) *thCase {
 	ms := []uint64{1, 2, 2, 2, 3, 3, 4, 5, 6, 7, 8, 12, 16, 24, 31, 40, 64}
 	m := ms[rapid.IntRange(0, len(ms)-1).Draw(rt, "m")]
@@ -336,6 +357,21 @@ func genConstructed(rt *rapid.T) *thCase {
 		y = mk(sign)
 		if y.Cmp(ratOne()) >= 0 {
 			sign = -1
+			y = mk(sign)
+		}
+		// Cost guard (not a correctness matter): the library sums a fixed number of
+		// atanh terms T ~ targetBits/3.17 with big.Float.Add, whose cost grows with the
+		// exponent gap 2n*log2(1/z); for a mantissa of 1-f within 2^-q of 1 one call
+		// clears ~T^2*q/64 words (85 s measured for 1-f = 2^-120*(1-2^-4700), sigma=2/3).
+		// Such inputs are kept out of the generated domain; see findings/C37.md.
+		if libCostWords(y, B) > 1.5e8 && sign < 0 {
+			if y2 := mk(+1); y2.Cmp(ratOne()) < 0 && libCostWords(y2, B) <= 1.5e8 {
+				sign, y = +1, y2
+			}
+		}
+		if libCostWords(y, B) > 1.5e8 {
+			B = uint(rapid.IntRange(20, 570).Draw(rt, "Bcheap"))
+			lv = pertLevels[0]
 			y = mk(sign)
 		}
 		c.Pert, c.PertBits = sign, B
